@@ -66,7 +66,9 @@ Dev_FirstPartDecidesStyle(a, d) == InGrammarBase(a, d) /\ ~G7(a, d)
 
 \* C08(a): the one dialect family in which print/parse with the same dialect is not lossless:
 \* GTF-style without quotes strips white space at the edges of a part (known finding F10)
-EdgeBlank(v) == v # <<>> /\ (IsSpace(v[1]) \/ IsSpace(Last(v)))
+\* (a part is stripped and then split at blanks: white space at the END of the printed value is lost;
+\*  leading white space survives the split)
+EdgeBlank(v) == v # <<>> /\ IsSpace(Last(v))
 Dev_UnquotedGtfStripsEdgeBlanks(a, d) ==
   d.fmt = "gtf" /\ ~d.quoted /\ \E i \in 1..Len(ItemStrs(a, d)) : EdgeBlank(ItemStrs(a, d)[i])
 \* domain of C08(a)
@@ -121,6 +123,8 @@ CaseRecord(n, a, d) ==
   [n |-> n, a |-> a, d |-> d, t |-> Render(a, d, TRUE, FALSE), line |-> l, cols |-> LineCols(n), extra |-> LineExtra(n),
    in |-> InG(a, d), f13 |-> (a # <<>> /\ Dev_FirstPartDecidesStyle(a, d)),
    obs |-> IF InG(a, d) THEN Obs(a, d) ELSE p.d,
+   \* what a file of such lines reports (C09): keys once, in first-seen order
+   fobs |-> IF InG(a, d) THEN [Obs(a, d) EXCEPT !.order = Dedup(Obs(a, d).order, <<>>)] ELSE p.d,
    loose |-> IF LooseApplies(n, a, d) THEN LooseLineOf(n, a, d) ELSE <<>>,
    pattrs |-> p.attrs, pd |-> p.d, pline |-> ToLine(p, TRUE, FALSE)]
 =============================================================================
